@@ -57,12 +57,11 @@ Theorem C02_pratt_roundtrip : forall bp, wf_bp bp = true ->
 Proof. exact pratt_roundtrip_gen. Qed.
 
 (* the same, from the AST: the parser's grouping IS the documented grouping and associativity.
-   PARTIAL only in this: `embed` maps an AST to a surface tree node by node, so an AST containing a
-   literal-only container that the parser has folded into a constant (EConst (CArr _ / CMap _)) is
-   not in its range (`printable (embed e)` is false for it); those are covered from the surface side
-   by C02_pratt_roundtrip (SArr / SMap of constants, `desugar` folds them).  `normal e`: an EArr /
-   EMap node has a non-constant or spread item, as every tree the parser builds has. *)
-Theorem C02_pratt_roundtrip_ast_partial : forall bp, wf_bp bp = true ->
+   `embed` writes an AST as the surface tree without sugar or parentheses (a folded literal-only
+   container constant as the literal it was folded from); `normal e` says e is a tree the parser
+   can build: an EArr / EMap node has a non-constant or spread item (otherwise parse_array /
+   parse_map would have folded it) and a folded map constant has distinct keys (it is a HashMap). *)
+Theorem C02_pratt_roundtrip_ast : forall bp, wf_bp bp = true ->
   forall maxb maxdim e d c rest,
   normal e = true ->
   printable (embed e) = true -> need (embed e) <= d -> fst c + needb (embed e) <= maxb ->
@@ -177,9 +176,35 @@ Theorem C02_no_coercion : forall a b,
    forall g e, eval g e = Val a -> eval g (EUn UMinus e) = Err).
 Proof. exact no_coercion. Qed.
 
+(* list comprehensions (Spec/ExprSem.v, from "similar to the ones in Python ... syntax sugar for a
+   `for` loop"): over an array target the result is `map f (filter p target)` in order, where the
+   condition (when present) is evaluated for every element with the loop variable bound to it -
+   shadowing any outer variable of that name - and the element expression only for the elements
+   the condition keeps: for skipped elements it is not evaluated at all (it may be `throw(..)`) *)
+Theorem C02_comprehension_filter_map : forall g e v target cond l (f : value -> value) (p : value -> bool),
+  eval g target = Val (VArr l) ->
+  (forall x, In x l ->
+     match cond with
+     | Some c => exists cv, eval ((v, x) :: g) c = Val cv /\ is_truthy cv = p x
+     | None => p x = true
+     end) ->
+  (forall x, In x l -> p x = true -> eval ((v, x) :: g) e = Val (f x) /\ f x <> VUndef) ->
+  eval g (EComp e None v target cond) = Val (VArr (map f (filter p l))).
+Proof. exact comprehension_filter_map. Qed.
+
+(* an error in the condition / element for the first element is the result *)
+Theorem C02_comprehension_error : forall g e v target cond x r,
+  eval g target = Val (VArr (x :: r)) ->
+  (match cond with Some c => eval ((v, x) :: g) c = Err
+                 | None => eval ((v, x) :: g) e = Err end) ->
+  eval g (EComp e None v target cond) = Err.
+Proof. exact comprehension_error. Qed.
+
+Print Assumptions C02_comprehension_filter_map.
+Print Assumptions C02_comprehension_error.
 Print Assumptions C02_bp_matches_docs.
 Print Assumptions C02_pratt_roundtrip.
-Print Assumptions C02_pratt_roundtrip_ast_partial.
+Print Assumptions C02_pratt_roundtrip_ast.
 Print Assumptions C02_pratt_roundtrip_top.
 Print Assumptions C02_pratt_decorations.
 Print Assumptions C02_pratt_redundant_parens.
@@ -231,6 +256,14 @@ Example C02_ex_literals :
   (desugar (SArr [(false, SConst (CInt 1)); (false, SConst (CInt 2))] true) = EConst (CArr [CInt 1; CInt 2])).
 Proof. vm_compute. repeat split; try reflexivity; repeat constructor. Qed.
 
+(* from the AST, with folded constants inside: `a in [1, "x"] and {"k": [2], true: none}[k]` *)
+Example C02_ex_ast_folded :
+  let e := EBin OAnd (EBin OIn (EVar (s2l "a")) (EConst (CArr [CInt 1; CStr (s2l "x")])))
+                     (EItem (EConst (CMap [(MKStr (s2l "k"), CArr [CInt 2]); (MKBool true, CNone)])) (EVar (s2l "k")) false) in
+  normal e = true /\ printable (embed e) = true /\
+  parse_top gen_bp (print (embed e) ++ [TVarEnd]) = Some e.
+Proof. vm_compute. repeat split; reflexivity. Qed.
+
 (* the parser's own rules: `[,]` is rejected, a third array dimension is rejected, a reserved
    comprehension variable is rejected *)
 Example C02_ex_literal_limits :
@@ -240,6 +273,20 @@ Example C02_ex_literal_limits :
       needa a3 = 3 /\ parse_top gen_bp (print a3 ++ [TVarEnd]) = None)
   /\ (let c := SComp (v_ "x") None (s2l "loop") (v_ "xs") None in
       printable c = false /\ parse_top gen_bp (print c ++ [TVarEnd]) = None).
+Proof. vm_compute. repeat split; reflexivity. Qed.
+
+(* `[x * x for x in [1, 2, 3] if x > 1]` is `[4, 9]` with an outer x untouched; the element is not
+   evaluated for skipped items; spreads splice a comprehension's result *)
+Example C02_ex_comprehension :
+  let xs := EConst (CArr [CInt 1; CInt 2; CInt 3]) in
+  let x := EVar (s2l "x") in
+  eval [(s2l "x", VInt I64 100%Z)]
+       (EArr [(false, EComp (EBin OMul x x) None (s2l "x") xs (Some (EBin OGt x (EConst (CInt 1))))); (false, x)])
+    = Val (VArr [VArr [VInt I64 4%Z; VInt I64 9%Z]; VInt I64 100%Z])
+  /\ eval [] (EComp (ECall (s2l "throw") []) None (s2l "x") xs (Some (EConst (CBool false)))) = Val (VArr [])
+  /\ eval [] (EComp (ECall (s2l "throw") []) None (s2l "x") xs None) = Err
+  /\ eval [] (EArr [(true, EComp x None (s2l "x") xs None); (false, EConst (CInt 0))])
+    = Val (VArr [VInt I64 1%Z; VInt I64 2%Z; VInt I64 3%Z; VInt I64 0%Z]).
 Proof. vm_compute. repeat split; reflexivity. Qed.
 
 (* evaluation: `false and throw(..)` is false, `throw(..) if none else 2` is 2, `nope or 1` is 1,
